@@ -7,11 +7,13 @@
  *        L<j>         launch thread j (must be managed) from inside this thread
  *        P            explicit schedule point
  *        O<n>         aws_thread_call_once on once-flag n (1..3); the once-function contains a schedule point
+ *        Z<ms>        aws_thread_current_sleep for <ms> virtual milliseconds
  *        V            the thread's view of itself: id (aws_thread_current_thread_id vs aws_thread_get_id of its own
  *                     aws_thread and of the main thread), name, aws_thread_current_sleep(1 ms) against the clock
  *   MAIN <op> ...                 ops of the scenario's main thread:
  *        L<i>         launch thread i        J<i>  join (joinable) thread i
  *        JA           aws_thread_join_all_managed, then log the managed-thread count
+ *        T<ms>        aws_thread_set_managed_join_timeout_ns(<ms> milliseconds); T0 = unbounded again
  *        P            schedule point          O<n>  aws_thread_call_once on once-flag n
  *        I            aws_common_library_init() once more (dependent libraries do this; it is documented as idempotent)
  */
@@ -107,6 +109,8 @@ static void thread_fn(void *arg) {
             vs_point();
         } else if (op[0] == 'O') {
             do_once(atoi(op + 1));
+        } else if (op[0] == 'Z') {
+            aws_thread_current_sleep((uint64_t)atoi(op + 1) * 1000000ull);
         } else if (op[0] == 'V') {
             aws_thread_id_t me = aws_thread_current_thread_id();
             struct aws_string *nm = NULL;
@@ -192,13 +196,24 @@ static void scenario(char **lines, int nlines) {
     for (int i = 0; i < nmain; ++i) {
         const char *op = mainops[i];
         if (strcmp(op, "JA") == 0) {
+            uint64_t t0 = 0, t1 = 0;
+            aws_sys_clock_get_ticks(&t0);
             vh_begin("JoinAllBegin");
+            vh_wide("t", t0);
             vh_end();
             int rc = aws_thread_join_all_managed();
             size_t n = aws_thread_get_managed_thread_count();
+            aws_sys_clock_get_ticks(&t1);
             vh_begin("JoinAllRet");
             vh_int("rc", rc);
             vh_int("count", (long long)n);
+            vh_wide("t", t1);
+            vh_end();
+        } else if (op[0] == 'T') {
+            uint64_t ns = (uint64_t)atoi(op + 1) * 1000000ull;
+            aws_thread_set_managed_join_timeout_ns(ns);
+            vh_begin("SetJoinTimeout");
+            vh_wide("ns", ns);
             vh_end();
         } else if (op[0] == 'L') {
             launch(atoi(op + 1));
